@@ -202,6 +202,13 @@ pub struct SummaryCase {
 
 pub struct TradingSummaryCheck;
 
+/// Exchange time of a fill relative to the previous event: mostly later, sometimes earlier (the
+/// venues' clocks are not synchronised, so positions of different instruments may close out of
+/// time order).
+fn fill_dt() -> impl Strategy<Value = i32> {
+    prop_oneof![5 => 0i32..2000, 1 => -3000i32..0]
+}
+
 impl Check for TradingSummaryCheck {
     type Case = SummaryCase;
     const NAME: &'static str = "trading_summary";
@@ -215,10 +222,10 @@ impl Check for TradingSummaryCheck {
             simple_world(1..=3, 1..4),
             prop::collection::vec(
                 prop_oneof![
-                    8 => (0u8..4, any::<bool>(), 1u32..2000, prop_oneof![3 => Just(10u16), 1 => Just(20u16), 1 => Just(5u16)], prop_oneof![Just(0u16), 1u16..100], 0i32..2000)
+                    8 => (0u8..4, any::<bool>(), 1u32..2000, prop_oneof![3 => Just(10u16), 1 => Just(20u16), 1 => Just(5u16)], prop_oneof![Just(0u16), 1u16..100], fill_dt())
                         .prop_map(|(inst, buy, price_q, qty, fee_bp, dt)| EvSpec::Fill { inst, buy, price_q, qty, fee_bp, dt }),
                     // two-price pool without fees: exact break-even closes
-                    4 => (0u8..3, any::<bool>(), prop_oneof![Just(400u32), Just(404u32)], 0i32..2000)
+                    4 => (0u8..3, any::<bool>(), prop_oneof![Just(400u32), Just(404u32)], fill_dt())
                         .prop_map(|(inst, buy, price_q, dt)| EvSpec::Fill { inst, buy, price_q, qty: 10, fee_bp: 0, dt }),
                     2 => (0u8..12, 1u32..100_000, 0i32..2000).prop_map(|(asset, total, dt)| EvSpec::Balance { asset, total, dt }),
                     1 => strat::market_item(),
@@ -240,11 +247,16 @@ impl Check for TradingSummaryCheck {
         let mut resolver = Resolver::new(&indexed);
         let mut exits: Vec<Vec<PositionExited<QuoteAsset, InstrumentIndex>>> = vec![Vec::new(); indexed.instruments().len()];
         let mut last_balance: Vec<Option<Balance>> = vec![None; indexed.assets().len()];
+        // a summary generator kept outside the engine and fed from the engine's outputs, the way a
+        // consumer of the audit stream keeps one
+        let mut follower = rig.engine.trading_summary_generator(Decimal::new(5, 2));
+        let (mut last_exit_time, mut exits_out_of_time_order) = (None, 0u32);
         for spec in &case.events {
             let event = resolver.resolve(spec);
             if let EngineEvent::Account(AccountStreamEvent::Item(a)) = &event {
                 if let AccountEventKind::BalanceSnapshot(b) = &a.kind {
                     last_balance[b.0.asset.index()] = Some(b.0.balance);
+                    follower.update_from_balance(barter_integration::snapshot::Snapshot(&b.0));
                 }
             }
             let audit = rig.engine.process(event);
@@ -252,6 +264,11 @@ impl Check for TradingSummaryCheck {
                 for o in p.outputs.iter() {
                     if let EngineOutput::PositionExit(e) = o {
                         exits[e.instrument.index()].push(e.clone());
+                        follower.update_from_position(e);
+                        if last_exit_time.is_some_and(|t| e.time_exit < t) {
+                            exits_out_of_time_order += 1;
+                        }
+                        last_exit_time = Some(last_exit_time.map_or(e.time_exit, |t: chrono::DateTime<chrono::Utc>| t.max(e.time_exit)));
                     }
                 }
             }
@@ -286,6 +303,15 @@ impl Check for TradingSummaryCheck {
                 bad!(sig, "instrument {i} ({}): {msg}", ins.value.name_internal);
             }
         }
+        let followed = follower.generate(Daily);
+        if followed.instruments.keys().ne(summary.instruments.keys()) || followed.assets.keys().ne(summary.assets.keys()) {
+            bad!("follower:keys", "summary generator fed from the outputs lists {:?} / {:?}", followed.instruments.keys().collect::<Vec<_>>(), followed.assets.keys().collect::<Vec<_>>());
+        }
+        for (i, ins) in indexed.instruments().iter().enumerate() {
+            if let Err((sig, msg)) = compare("follower", &followed.instruments[&ins.value.name_internal], &expected_of(&exits[i])) {
+                bad!(sig, "summary generator fed with the engine's position exits, instrument {i} ({}): {msg} ({} exits of the run were out of time order)", ins.value.name_internal, exits_out_of_time_order);
+            }
+        }
         for (i, a) in indexed.assets().iter().enumerate() {
             let key = barter_instrument::asset::ExchangeAsset { exchange: a.value.exchange, asset: a.value.asset.name_internal.clone() };
             let sheet = &summary.assets[&key];
@@ -294,14 +320,21 @@ impl Check for TradingSummaryCheck {
             }
         }
         classify(&mut rep, &agg);
+        for (i, a) in indexed.assets().iter().enumerate() {
+            let key = barter_instrument::asset::ExchangeAsset { exchange: a.value.exchange, asset: a.value.asset.name_internal.clone() };
+            if last_balance[i].is_some() && followed.assets[&key].balance_end != last_balance[i] {
+                bad!("follower:asset-balance", "summary generator fed with the balance snapshots, asset {i} ({:?}): balance_end {:?}, its own last balance is {:?}", key, followed.assets[&key].balance_end, last_balance[i]);
+            }
+        }
         rep.class_if(with_history >= 2, "two_or_more_instruments_with_history");
+        rep.class_if(exits_out_of_time_order > 0, "position_exits_out_of_time_order");
         rep.nontrivial = agg.n >= 3 && agg.wins > 0 && agg.losses > 0 && with_history >= 2;
         rep
     }
 }
 
 pub fn run(ctx: &mut Ctx) {
-    ctx.rule = "tear_sheet_direct: 0..25|60 closed positions (wins, losses, break-even; entry 0.25..1000, max quantity 0.1..9.9), generate() checked after every position; plus all-win and all-loss sequences. trading_summary: 1..3 exchanges / 2..6 instruments, vec(event,0..40|90) of fills (sizes 0.5/1/2 so closes and flips are frequent, fees incl. zero), balance updates and market data through Engine::process, then Engine::trading_summary_generator(0.05).generate(Daily). non-trivial = >= 3 closed positions with >= 1 win and >= 1 loss (summary check: on >= 2 instruments); distinct by hash of the case.".into();
+    ctx.rule = "tear_sheet_direct: 0..25|60 closed positions (wins, losses, break-even; entry 0.25..1000, max quantity 0.1..9.9), generate() checked after every position; plus all-win and all-loss sequences. trading_summary: 1..3 exchanges / 2..6 instruments, vec(event,0..40|90) of fills (sizes 0.5/1/2 so closes and flips are frequent, fees incl. zero), balance updates and market data through Engine::process, then Engine::trading_summary_generator(0.05).generate(Daily); a second TradingSummaryGenerator taken before the run and fed with every PositionExit output / balance snapshot (update_from_position / update_from_balance) must report the same; one fill in six carries an earlier exchange time than the previous event. non-trivial = >= 3 closed positions with >= 1 win and >= 1 loss (summary check: on >= 2 instruments); distinct by hash of the case.".into();
     ctx.assumptions = vec![
         "return of a closed position = realised PnL / (average entry x maximum quantity) as documented; a return of exactly zero counts as not negative".into(),
         "one generate() per generator clone; balance timestamps in the summary check are increasing".into(),
